@@ -285,7 +285,7 @@ fn run_in(case: &C11Case, exec: &mut Exec) -> Result<CaseInfo, Fail> {
     // ---- wait for the end of the stream where one is due (bounded response) ----------
     let mut f = f;
     if must_end && !f.closed {
-        let deadline = Instant::now() + Duration::from_secs(3);
+        let deadline = Instant::now() + Duration::from_secs(10);
         while Instant::now() < deadline {
             std::thread::sleep(Duration::from_millis(5));
             let again: Vec<FollowResult> = must(
@@ -306,7 +306,7 @@ fn run_in(case: &C11Case, exec: &mut Exec) -> Result<CaseInfo, Fail> {
     // deliveries may still be on their way (e.g. the schedule delays the live task): while what
     // has arrived is a strict prefix of the expectation, wait (bounded) before judging
     if case.lag.is_none() {
-        let deadline = Instant::now() + Duration::from_secs(5);
+        let deadline = Instant::now() + Duration::from_secs(10);
         loop {
             let got: Vec<&String> = f
                 .items
@@ -370,7 +370,7 @@ fn run_in(case: &C11Case, exec: &mut Exec) -> Result<CaseInfo, Fail> {
             labels.push("follower-lagged-out".to_string());
             if !f.closed {
                 // it must end: watch for three further pulses (or 2 s) with frames still missing
-                let deadline = Instant::now() + Duration::from_secs(3);
+                let deadline = Instant::now() + Duration::from_secs(8);
                 let pulses0 = pulses;
                 let mut ended = false;
                 let mut extra_pulses = 0;
@@ -405,7 +405,7 @@ fn run_in(case: &C11Case, exec: &mut Exec) -> Result<CaseInfo, Fail> {
                         return Err(Fail::new(
                             Class::Follow,
                             format!(
-                                "slow follower is {behind} frames behind (its stream lost frames) but the stream neither ended nor caught up within 3 s ({extra_pulses} further pulses)",
+                                "slow follower is {behind} frames behind (its stream lost frames) but the stream neither ended nor caught up within 8 s ({extra_pulses} further pulses)",
                             ),
                         ));
                     }
